@@ -83,6 +83,7 @@ func (fc *FnCtx) Translate() (err error) {
 		}
 	} else {
 		pw := fc.eng.probeWrites(fc.fn)
+		delete(fc.eng.pendingTargets, fc.fn)
 		fc.anchorOrd = map[string]int{}
 		for _, li := range fc.loops {
 			li.writes = newNameSet()
@@ -104,7 +105,10 @@ func (fc *FnCtx) Translate() (err error) {
 		}
 	}
 	// frame: the declared modifies clause must cover what the body (and its callees, by their summaries) may write
-	if !fc.probe && fc.c != nil && fc.c.HasModifies && !fc.c.Trusted {
+	if !fc.probe && fc.c != nil && fc.c.HasModifies && fc.c.AssumeFrame {
+		fc.noteTrusted("frame of " + fc.name + " assumed (modifies clause not checked against the body): " + strings.Join(fc.c.Modifies, ", "))
+	}
+	if !fc.probe && fc.c != nil && fc.c.HasModifies && !fc.c.Trusted && !fc.c.AssumeFrame {
 		declared := fc.eng.summary(fc.fn)
 		pw := fc.eng.probeWrites(fc.fn)
 		var extra []string
@@ -692,6 +696,12 @@ func (fc *FnCtx) doFieldAddr(x *ssa.FieldAddr) {
 		r = fc.define(x.Name(), SortRef, r)
 		k := fc.eng.fieldID(st, x.Field)
 		fc.axiom(and(eq(app("sub_owner", r), p.L[0]), eq(app("sub_fid", r), bvLit(uint64(k), 16)), not(eq(r, bvLit(0, 64)))))
+		if fc.isFreshRef(p.L[0]) {
+			if fc.freshSet == nil {
+				fc.freshSet = map[string]bool{}
+			}
+			fc.freshSet[r] = true
+		}
 		fc.vals[x] = Val{T: x.Type(), L: []string{r}}
 		return
 	}
@@ -736,6 +746,12 @@ func (fc *FnCtx) doIndexAddr(x *ssa.IndexAddr) {
 	if ptrIsThin(et) {
 		r := fc.define(x.Name(), SortRef, fc.eltRef(base, pos))
 		fc.axiom(and(eq(app("elt_base", r), base), eq(app("elt_idx", r), pos), eq(app("sub_fid", r), bvLit(2, 16)), not(eq(r, bvLit(0, 64)))))
+		if fc.isFreshRef(base) {
+			if fc.freshSet == nil {
+				fc.freshSet = map[string]bool{}
+			}
+			fc.freshSet[r] = true
+		}
 		fc.vals[x] = Val{T: x.Type(), L: []string{r}}
 		return
 	}
